@@ -201,6 +201,9 @@ func solveAll(items []*solveItem, timeoutS int, needTwo bool, workers int) {
 				}
 				script := it.w.script(o, false)
 				to := timeoutS
+				if o.BudgetS > to {
+					to = o.BudgetS
+				}
 				if o.Vacuity && to > 4 {
 					to = 4 // a contradictory precondition is refuted quickly; "unknown" is the expected answer
 				}
